@@ -102,9 +102,17 @@ func runAgedCase(r *vh.Run, c connCase) {
 			break
 		}
 		sent = i + 1
-		out, fp := cl.AwaitQuiet(act)
+		n := i + 1
+		out, fp := h1x.AwaitCond(func() bool {
+			q, _ := cl.Quiet()
+			if !q {
+				return false
+			}
+			v := cl.View()
+			return v.Closed || responsesComplete(v, p, n)
+		}, func() string { return cl.Activity() + " " + act() })
 		quietAt[i] = time.Now()
-		if !handleOutcome(r, c, out, fp, &vs, "aged") {
+		if !handleStep(r, c, cl, out, fp, &vs, "aged") {
 			decided = false
 			break
 		}
